@@ -34,3 +34,31 @@ void h_thread_metadata_init(void)
 	thread_metadata_init();
 	REACH("thread_metadata_init returns");
 }
+
+/* ovni_thread_free (direct mode, no CPU list): the metadata is stored exactly once
+ * more, now complete AND with ovni.finished = 1 (set before the store), and the
+ * thread ends finished / not ready.  It dies if any parson call fails. */
+int close(int fd) { (void) fd; return nondet_int(); }
+void cr_move_thdir_to_final(const char *thdir, const char *thdir_final)
+__CPROVER_requires(1)
+__CPROVER_assigns()
+__CPROVER_ensures(1)
+;
+void c_ovni_thread_free(void)
+__CPROVER_requires((g_keys & (K_MANDATORY | K_FINISHED)) == K_MANDATORY && g_store_failed == 0 && g_store_calls < 1000u)
+__CPROVER_requires(rthread.cpus == NULL && rproc.move_to_final == 0)
+__CPROVER_requires(rthread.evbuf == NULL || __CPROVER_is_fresh(rthread.evbuf, 64))
+__CPROVER_assigns(g_keys, g_v_finished, g_v_rank, g_v_nranks, g_parson_failed, g_died, g_store_calls, g_keys_at_store,
+	g_finished_at_store, g_store_failed, rthread.evbuf, rthread.streamfd, rthread.finished, rthread.ready, g_diag, g_warn)
+__CPROVER_frees(rthread.evbuf)
+__CPROVER_ensures(__CPROVER_old(rthread.ready) && !__CPROVER_old(rthread.finished))
+__CPROVER_ensures(g_store_calls == __CPROVER_old(g_store_calls) + 1 && !g_store_failed)
+__CPROVER_ensures((g_keys_at_store & (K_MANDATORY | K_FINISHED)) == (K_MANDATORY | K_FINISHED) && g_finished_at_store == 1.0)
+__CPROVER_ensures(rthread.finished == 1 && rthread.ready == 0)
+;
+void h_ovni_thread_free(void)
+{
+	ovni_thread_free();
+	REACH("ovni_thread_free returns");
+	if (g_keys & K_RANK) REACH("rank was stored too");
+}
